@@ -417,51 +417,87 @@ fn run_shape(tpls: &[TplS], orders: &[Vec<usize>]) -> Outcome {
     }
     // re-register each template in turn (same blocks, new bodies: tag `v2`), without touching the
     // others: every template must then render as in a fresh instance given the updated set, and
-    // the stored lineage (chunk ids included) must be the fresh one
+    // the stored lineage (chunk ids included) must be the fresh one.  Then CHANGE the chain above
+    // the descendants: a new root `layout.html` is added, the old root is re-registered as its
+    // child (a level inserted, every descendant re-parented to another root), and re-registered
+    // as a root again (the level removed).
+    fn verify(tera: &tera::Tera, cur: &[TplS], what: &str, renders: &mut u32) -> Option<String> {
+        let (fresh_imp, fresh) = register(cur, &(0..cur.len()).collect::<Vec<_>>());
+        let Some(fresh) = fresh else {
+            return Some(format!("a fresh instance rejects the set after {what}: {fresh_imp}"));
+        };
+        if real_derived(tera) != real_derived(&fresh) {
+            return Some(format!(
+                "after {what} the derived data differs from a fresh instance given the same set: history {:?} vs fresh {:?}",
+                real_derived(tera).tpls.iter().map(|(n, t)| (n.clone(), t.parents.clone(), t.lineage_ids.clone())).collect::<Vec<_>>(),
+                real_derived(&fresh).tpls.iter().map(|(n, t)| (n.clone(), t.parents.clone(), t.lineage_ids.clone())).collect::<Vec<_>>()
+            ));
+        }
+        for t in cur {
+            let mut r = Ref { tpls: cur, written: BTreeMap::new(), depth_exceeded: false };
+            let want = r.render(&t.name);
+            if r.depth_exceeded {
+                continue;
+            }
+            let got = class_of(&catch(std::panic::AssertUnwindSafe(|| tera.render(&t.name, &Context::new()))));
+            *renders += 1;
+            let want_s = match &want {
+                Ok(s) => format!("ok:{s}"),
+                Err(_) => "err:rendering".to_string(),
+            };
+            if got != want_s {
+                return Some(format!("after {what}: render of `{}`: engine `{got}`, reference `{want_s}`", t.name));
+            }
+        }
+        None
+    }
     if tpls.len() >= 2 && !o.call_cycle {
         let mut tera = tera;
         let mut cur: Vec<TplS> = tpls.to_vec();
+        let mut readd = |tera: &mut tera::Tera, t: &TplS| -> Option<String> {
+            match catch(std::panic::AssertUnwindSafe(|| tera.add_raw_template(&t.name, &t.source()))) {
+                Ok(Ok(())) => None,
+                other => Some(format!("registering `{}` ({}) failed: {:?}", t.name, t.source(), other.map(|r| r.map_err(|e| canon_err(&e))))),
+            }
+        };
         for a in 0..tpls.len() {
             cur[a].tag = "v2".to_string();
-            let res = catch(std::panic::AssertUnwindSafe(|| tera.add_raw_template(&cur[a].name, &cur[a].source())));
             o.history_steps += 1;
-            match res {
-                Ok(Ok(())) => {}
-                other => {
-                    o.failure = Some(format!("re-registering `{}` with the same blocks and new bodies failed: {:?}", cur[a].name, other.map(|r| r.map_err(|e| canon_err(&e)))));
-                    return o;
-                }
-            }
-            let (fresh_imp, fresh) = register(&cur, &(0..cur.len()).collect::<Vec<_>>());
-            let Some(fresh) = fresh else {
-                o.failure = Some(format!("a fresh instance rejects the set after `{}` was re-registered: {fresh_imp}", cur[a].name));
-                return o;
-            };
-            if real_derived(&tera) != real_derived(&fresh) {
-                o.failure = Some(format!(
-                    "after re-registering `{}` (same block names, new bodies) the derived data differs from a fresh instance given the same set: history {:?} vs fresh {:?}",
-                    cur[a].name,
-                    real_derived(&tera).tpls.iter().map(|(n, t)| (n.clone(), t.lineage_ids.clone())).collect::<Vec<_>>(),
-                    real_derived(&fresh).tpls.iter().map(|(n, t)| (n.clone(), t.lineage_ids.clone())).collect::<Vec<_>>()
-                ));
+            if let Some(f) = readd(&mut tera, &cur[a]) {
+                o.failure = Some(f);
                 return o;
             }
-            for t in &cur {
-                let mut r = Ref { tpls: &cur, written: BTreeMap::new(), depth_exceeded: false };
-                let want = r.render(&t.name);
-                if r.depth_exceeded {
-                    continue;
-                }
-                let got = class_of(&catch(std::panic::AssertUnwindSafe(|| tera.render(&t.name, &Context::new()))));
-                o.renders += 1;
-                let want_s = match &want {
-                    Ok(s) => format!("ok:{s}"),
-                    Err(_) => "err:rendering".to_string(),
-                };
-                if got != want_s {
-                    o.failure = Some(format!("after re-registering `{}` (same block names, new bodies): render of `{}`: engine `{got}`, reference `{want_s}`", cur[a].name, t.name));
-                    return o;
-                }
+            if let Some(f) = verify(&tera, &cur, &format!("re-registering `{}` (same block names, new bodies)", cur[a].name), &mut o.renders) {
+                o.failure = Some(f);
+                return o;
+            }
+        }
+        // a new root that defines every block name of the chain at top level
+        let names: BTreeSet<String> = cur.iter().flat_map(|t| t.blocks.iter().map(|b| b.name.clone())).collect();
+        let mut layout = TplS::new("layout.html");
+        layout.tag = "L".into();
+        layout.blocks = names.iter().map(|n| BlockS { name: n.clone(), ..Default::default() }).collect();
+        let root_name = cur[0].name.clone();
+        o.history_steps += 1;
+        if let Some(f) = readd(&mut tera, &layout) {
+            o.failure = Some(f);
+            return o;
+        }
+        cur.insert(0, layout);
+        for (parent, tag, what) in [
+            (Some("layout.html".to_string()), "v3", format!("re-registering the root `{root_name}` as a child of the new root `layout.html` (every descendant gets another root)")),
+            (None, "v4", format!("re-registering `{root_name}` as a root again (a level removed from every chain)")),
+        ] {
+            cur[1].parent = parent;
+            cur[1].tag = tag.to_string();
+            o.history_steps += 1;
+            if let Some(f) = readd(&mut tera, &cur[1]) {
+                o.failure = Some(f);
+                return o;
+            }
+            if let Some(f) = verify(&tera, &cur, &what, &mut o.renders) {
+                o.failure = Some(f);
+                return o;
             }
         }
     }
